@@ -1,5 +1,179 @@
 import ZoektModel.Basic.Proto
+import ZoektModel.C22.Spec
 namespace ZoektModel.C22
-/-- stub: no model driver for C22 yet -/
-def main : IO Unit := ZoektModel.Proto.runLines (fun _ => ZoektModel.Proto.badCase "no model driver for C22")
+open ZoektModel ZoektModel.Proto
+
+/-! line protocol
+
+files   := file ("," file)* | "-"
+file    := id "/" score "/" ext "/" units
+units   := unit ("+" unit)* | "-"
+unit    := id "~" firstLine "~" contentHex "~" items "~" sym "~" bad
+items   := id "." endLine ("_" id "." endLine)* | "-"
+sym     := "n" (nil) | "-" (empty) | id ("_" id)*
+batches := files ("|" files)*
+-/
+
+def sepList {α} (sep : String) (f : String → Option α) (s : String) : Option (List α) :=
+  if s == "-" then some [] else (s.splitOn sep).mapM f
+
+def parseItem (s : String) : Option Item :=
+  match s.splitOn "." with
+  | [a, b] => do pure ⟨← a.toNat?, ← b.toNat?⟩
+  | _ => none
+
+def parseSym (s : String) : Option (Option (List Nat)) :=
+  if s == "n" then some none else (sepList "_" String.toNat? s).map some
+
+def parseUnit (s : String) : Option MUnit :=
+  match s.splitOn "~" with
+  | [i, fl, c, its, sy, bad] => do
+    pure ⟨← i.toNat?, ← sepList "_" parseItem its, ← hexToBytes? c, ← fl.toNat?, ← parseSym sy, ← bool? bad⟩
+  | _ => none
+
+def parseFile (s : String) : Option File :=
+  match s.splitOn "/" with
+  | [i, sc, e, us] => do pure ⟨← i.toNat?, ← sc.toNat?, ← e.toNat?, ← sepList "+" parseUnit us⟩
+  | _ => none
+
+def parseFiles (s : String) : Option (List File) := sepList "," parseFile s
+def parseBatches (s : String) : Option (List (List File)) := (s.splitOn "|").mapM parseFiles
+
+def showItem (i : Item) : String := s!"{i.id}.{i.endLine}"
+def showSym : Option (List Nat) → String
+  | none => "n"
+  | some l => showList toString l |>.replace "," "_"
+def showUnit (u : MUnit) : String :=
+  let its := if u.items.isEmpty then "-" else "_".intercalate (u.items.map showItem)
+  s!"{u.id}~{u.firstLine}~{bytesToHex u.content}~{its}~{showSym u.sym}~{showBool u.bad}"
+def showFile (f : File) : String :=
+  let us := if f.units.isEmpty then "-" else "+".intercalate (f.units.map showUnit)
+  s!"{f.id}/{f.score}/{f.ext}/{us}"
+def showFiles (l : List File) : String := if l.isEmpty then "-" else ",".intercalate (l.map showFile)
+def showBatches (l : List (List File)) : String := "|".intercalate (l.map showFiles)
+def showOptFiles : Option (List File) → String
+  | none => "none"
+  | some l => showFiles l
+
+def anyBad (l : List File) : Bool := l.any fun f => f.units.any (·.bad)
+
+/-- is this chunk inside the domain of search results?  (what `fillContentChunkMatches` produces: non-empty ranges
+    in increasing order, content starting at `firstLine ≤` every end line and containing every range's lines,
+    `SymbolInfo` nil or parallel) -/
+def wfUnit (chunk : Bool) (u : MUnit) : Bool :=
+  if chunk then
+    !u.items.isEmpty && !u.bad &&
+    (u.items.zip (u.items.drop 1)).all (fun p => decide (p.1.endLine ≤ p.2.endLine)) &&
+    u.items.all (fun i => decide (u.firstLine ≤ i.endLine) && decide (i.endLine < 4294967296)) &&
+    decide (1 ≤ u.firstLine) &&
+    decide (maxEnd u.items + 1 - u.firstLine ≤ lineCount u.content) &&
+    (match u.sym with | none => true | some s => s.length == u.items.length)
+  else !u.bad
+
+def wfFiles (chunk : Bool) (l : List File) : Bool := l.all fun f => f.units.all (wfUnit chunk)
+
+def parseOpts (d m c x : String) : Option (Nat × Nat × Bool × Nat) := do
+  pure (← d.toNat?, ← m.toNat?, ← bool? c, ← x.toNat?)
+
+/-- impl of `trunc`: `<outbatches> more=<bits>` or `panic` -/
+def parseTruncImpl (s : String) : Option (Option (List (List File) × String)) :=
+  if s == "panic" then some none else
+  match fields s with
+  | [a, b] => if b.startsWith "more=" then do
+      let bs ← parseBatches a
+      pure (some (bs, (b.drop 5).toString))
+    else none
+  | _ => none
+
+def moreBits (l : List Bool) : String := if l.isEmpty then "-" else String.ofList (l.map fun b => if b then '1' else '0')
+
+/-- after `hasMore = false` every later output is empty -/
+def quietAfterDone : List (List File × Bool) → Bool
+  | [] => true
+  | (_, true) :: r => quietAfterDone r
+  | (_, false) :: r => r.all (fun p => p.1.isEmpty && !p.2)
+
+def handleTrunc (D M : Nat) (chunk : Bool) (ctx : Nat) (batches : List (List File)) (impl : String) : String :=
+  let run := truncRun (newTruncator D M chunk) batches
+  let outs := run.map (·.1)
+  let model := if anyBad outs.flatten then "panic" else s!"{showBatches outs} more={moreBits (run.map (·.2))}"
+  match parseTruncImpl impl with
+  | none => badCase "impl output"
+  | some none =>
+    if wfFiles chunk batches.flatten then specFail model "panic" else answer model
+  | some (some (iouts, ibits)) =>
+    if !wfFiles chunk batches.flatten then answer model
+    else if iouts.length != batches.length then specFail model "batch-count"
+    else
+      let full := batches.flatten
+      let out := iouts.flatten
+      if !(checkDisplay D M chunk ctx full out) then specFail model ("trunc:" ++ failKey D M chunk ctx full out)
+      else if !(quietAfterDone (iouts.zip (ibits.toList.map (· == '1')))) then specFail model "trunc:output-after-done"
+      else answer model
+
+/-- does the novel-extension promotion change any ranking on the way? (`boost` not the identity on the final
+    ranking or on some intermediate aggregate) -/
+def promotionInPlay (D M : Nat) (chunk : Bool) (batches : List (List File)) : Bool :=
+  let rec go (agg : List File) : List (List File) → Bool
+    | [] => false
+    | b :: bs =>
+      if b.isEmpty then go agg bs else
+      let a := agg ++ b
+      (sortFiles a != sortDesc a) ||
+        go (if hasDisplayLimit D M then sortAndTruncate D M chunk a else a) bs
+  go [] batches || sortFiles batches.flatten != sortDesc batches.flatten
+
+/-- impl of `agg`: `lim=<files|none> unl=<files|none>` or `panic` -/
+def parseAggImpl (s : String) : Option (Option (Option (List File) × Option (List File))) :=
+  if s == "panic" then some none else
+  let p (x : String) : Option (Option (List File)) := if x == "none" then some none else (parseFiles x).map some
+  match fields s with
+  | [a, b] => if a.startsWith "lim=" && b.startsWith "unl=" then do
+      pure (some (← p (a.drop 4).toString, ← p (b.drop 4).toString))
+    else none
+  | _ => none
+
+/-- did `log.Panicf` fire while one of the intermediate aggregates was truncated? (a cut chunk can be dropped again
+    by a later truncation, so the final aggregate does not show it) -/
+def aggPanics (D M : Nat) (chunk : Bool) (batches : List (List File)) : Bool :=
+  let rec go (agg : Option (List File)) : List (List File) → Bool
+    | [] => false
+    | b :: bs =>
+      let a := collectSend D M chunk agg b
+      anyBad (a.getD []) || go a bs
+  go none batches
+
+def handleAgg (D M : Nat) (chunk : Bool) (ctx : Nat) (batches : List (List File)) (impl : String) : String :=
+  let lim := collect D M chunk batches
+  let unl := collect 0 0 chunk batches
+  let model := if aggPanics D M chunk batches then "panic" else s!"lim={showOptFiles lim} unl={showOptFiles unl}"
+  match parseAggImpl impl with
+  | none => badCase "impl output"
+  | some none => if wfFiles chunk batches.flatten then specFail model "panic" else answer model
+  | some (some (ilim, iunl)) =>
+    if !wfFiles chunk batches.flatten then answer model
+    else match ilim, iunl with
+    | some l, some u =>
+      if checkDisplay D M chunk ctx u l then answer model
+      else
+        let k := failKey D M chunk ctx u l
+        if k == "chunk-context-short-at-eof" then specFail model ("agg:" ++ k)
+        else if promotionInPlay D M chunk batches then specFail model ("agg:novel-extension:" ++ k)
+        else specFail model ("agg:" ++ k)
+    | none, none => answer model
+    | _, _ => specFail model "agg:ok-flag"
+
+def handle (line : String) : String :=
+  let (inp, impl) := splitCase line
+  match fields inp with
+  | [op, d, m, c, x, bs] =>
+    match parseOpts d m c x, parseBatches bs with
+    | some (D, M, chunk, ctx), some batches =>
+      if op == "trunc" then handleTrunc D M chunk ctx batches impl
+      else if op == "agg" then handleAgg D M chunk ctx batches impl
+      else badCase "op"
+    | _, _ => badCase "fields"
+  | _ => badCase "arity"
+
+def main : IO Unit := runLines handle
 end ZoektModel.C22
